@@ -172,7 +172,7 @@ func keysOf(m map[string]bool) []string {
 func runC06(tier string, _ []string) int {
 	c := vlib.NewCtx("C06", tier, "exploration")
 	vlib.SetPortBlock(6)
-	c.SetRule("per case a fresh instance and a graph of one generator class (chain, wide, mirror, diamond, tombstoned edge in the middle, node under two parents one of which is deleted, deleted then undeleted, random history); then every node (incl. the root and one detached node that has points but no edge) is written once with an acknowledged node batch and every placement once with an edge batch (newer than what is stored); an up.> subscription on the writer's connection is drained at the reply barrier and compared with the model: {node} + ancestors through live edges (node points) / through any edges (edge points) + the root sentinel, payload equal to the points sent. In every second case 4-9 random legal graph operations follow (mirror, move, delete, undelete, create) and every node and placement is written and checked again. In every third case a concurrent phase follows: an edge is deleted / undeleted 3-8 times while a second connection writes back to back to a node below it; at rest afterwards, writes below the edge must be announced exactly according to the final graph. distinct = (shape, node|edge, size of expected set, duplicates seen)")
+	c.SetRule("per case a fresh instance and a graph of one generator class (chain, wide, mirror, diamond, tombstoned edge in the middle, node under two parents one of which is deleted, deleted then undeleted, random history); then every node (incl. the root and one detached node that has points but no edge) is written once with an acknowledged node batch and every placement once with an edge batch (newer than what is stored); an up.> subscription on the writer's connection is drained at the reply barrier and compared with the model: {node} + ancestors through live edges (node points) / through any edges (edge points) + the root sentinel, payload equal to the points sent. In every second case 4-9 random legal graph operations follow (mirror, move, delete, undelete, create) and every node and placement is written and checked again. (Thorough tier: one instance serves 66 000 writes, then 200 quiet nodes are written again at distances around 2^16 writes.) In every third case a concurrent phase follows: an edge is deleted / undeleted 3-8 times while a second connection writes back to back to a node below it; at rest afterwards, writes below the edge must be announced exactly according to the final graph. distinct = (shape, node|edge, size of expected set, duplicates seen)")
 	c.Assume("the store publishes rebroadcasts before the reply on one connection and NATS keeps per-publisher order to a subscriber connection (barrier, DESIGN C05)")
 	nGraphs := c.N(160, 1600)
 	vlib.Parallel(nGraphs, 6, func(i int) {
@@ -423,6 +423,83 @@ func runC06(tier string, _ []string) int {
 			c.Sample(map[string]any{"shape": shape, "edges": d.g.EdgeKeys()})
 		}
 	})
+	// ---- thorough tier only: one instance that has served more than 2^16 writes (counters and sequence
+	// numbers inside the store have wrapped); 200 quiet nodes are then written again at distances
+	// 65435..65634 writes from their previous write, each must be rebroadcast to all its ancestors
+	if c.Thorough() && !vlib.Aborted() {
+		func() {
+			r := vlib.NewR(c.Seed, "c06long", 0)
+			in, err := vlib.StartInstance(vlib.InstCfg{ID: "c06-long"})
+			if err != nil {
+				c.Inconclusive(err.Error())
+				return
+			}
+			defer in.Stop()
+			nc, err := in.Connect()
+			if err != nil {
+				c.Inconclusive(err.Error())
+				return
+			}
+			d := newGdriver(r, nc, in.RootID, "lg")
+			grp, _ := d.create(in.RootID, "group", false)
+			var targets []string
+			for q := 0; q < 200; q++ {
+				id, err := d.create(grp, "variable", false)
+				if err != nil {
+					c.Violate("store:legal-write-refused", err.Error(), nil)
+					return
+				}
+				targets = append(targets, id)
+			}
+			filler, _ := d.create(in.RootID, "variable", false)
+			tap, err := vlib.NewTap(nc, "up.>")
+			if err != nil {
+				c.Inconclusive(err.Error())
+				return
+			}
+			defer tap.Close()
+			write := func(id string, check bool) bool {
+				pts := data.Points{{Type: "v", Time: d.now(), Value: float64(r.Intn(1000)), Origin: "user-y"}}
+				e, err := d.sendNode(id, pts)
+				if err != nil || e != "" {
+					c.Violate("store:legal-write-refused", fmt.Sprint(err, e), map[string]any{"node": id})
+					return false
+				}
+				msgs := tap.Drain()
+				if !check {
+					return true
+				}
+				want := d.g.Ancestors(id, false)
+				want[id] = true
+				if sig, what := checkRebroadcast(msgs, id, "", false, want, pts); sig != "" {
+					c.Violate(sig+":after-65535-writes", what, map[string]any{"node": id, "writes_so_far": len(d.Log)})
+					return false
+				}
+				c.Count("rewrites_checked_after_2^16_writes", 1)
+				return true
+			}
+			for _, t := range targets {
+				if !write(t, true) {
+					return
+				}
+			}
+			for q := 0; q < 65535-200-100; q++ {
+				if !write(filler, q%1000 == 0) {
+					return
+				}
+				if q%5000 == 0 {
+					d.Log = d.Log[:0] // the witness log is not needed for the fillers
+				}
+			}
+			for _, t := range targets {
+				if !write(t, true) || !write(filler, false) {
+					return
+				}
+			}
+			c.Eval(66000)
+			c.Distinct("long run past 2^16 writes")
+		}()
+	}
 	c.Require("rebroadcasts_observed", 300)
 	return c.Finish()
 }
